@@ -643,6 +643,16 @@ def apply(eng, f, args, kwargs, n):
         h = globals().get("bi_" + f.name)
         if h is None:
             raise Unsupported("builtin %s" % f.name)
+        if f.name in ("int", "ord", "chr", "sum", "reversed"):
+            # these raise TypeError on None: an Optional argument must be known to be present
+            un = []
+            for a in args:
+                if isinstance(a, OptV):
+                    if not eng.spec_mode:
+                        eng.safety("%s-of-None" % f.name, a.some, n)
+                    a = a.val
+                un.append(a)
+            args = un
         return h(eng, args, kwargs, n)
     if k == "repo":
         return eng.call_repo(f.fi, None, args, kwargs, n)
